@@ -2,6 +2,7 @@ package netsim
 
 import (
 	"encoding/json"
+	"fmt"
 	"testing"
 	"time"
 
@@ -103,6 +104,7 @@ type winWorld struct {
 	mtuLimit int   // current path MTU as told to the stack (0 = link MTU)
 	lastData *Decoded
 	mssLimit int
+	peerWin  uint16 // the window field of the peer's last segment
 	// role 1 (stack receives)
 	sent     int64 // in-order bytes sent by the peer (offset of next in-order byte)
 	read     int64
@@ -228,7 +230,7 @@ func (w *winWorld) establish() bool {
 		w.mssLimit = 1
 	}
 	// the window of a SYN / SYN-ACK is never scaled
-	w.edge = 65535
+	w.edge, w.peerWin = 65535, 65535
 	w.bogus = map[int64]bool{}
 	return true
 }
@@ -286,7 +288,13 @@ func (w *winWorld) observeSender() {
 			lim = w.mtuLimit
 		}
 		if d.IP.TotalLen > lim {
-			w.Fail("packet-exceeds-mtu", "", "packet of %d bytes emitted, path MTU is %d", d.IP.TotalLen, lim)
+			opts := t.DataOff - 20
+			room := lim - d.IP.HdrLen - t.DataOff
+			why := fmt.Sprintf("%d bytes were available for payload", room)
+			if room < 1 && len(t.Payload) == 1 {
+				why = "headers and options alone leave no room for a single byte of payload, and the stack sends one byte regardless"
+			}
+			w.Fail("packet-exceeds-mtu", "", "packet of %d bytes (%d IP header + 20 TCP header + %d TCP options + %d payload) emitted, path MTU is %d: %s", d.IP.TotalLen, d.IP.HdrLen, opts, len(t.Payload), lim, why)
 		}
 		// content and peer-side reassembly
 		for i, b := range t.Payload {
@@ -340,11 +348,23 @@ func (w *winWorld) senderStep(s Step) {
 		if e := ackOff + int64(win)<<uint(w.ws); e > w.edge {
 			w.edge = e
 		}
+		w.peerWin = win
 		p.Send(codec.FlagACK, p.SndNxt, p.RcvNxt, win, nil, nil)
 		w.Probes["acks_sent"]++
 		if win == 0 {
 			w.Probes["zero_window_offered"]++
 		}
+	case "pooo":
+		// the peer sends a few bytes out of order: the stack now has a hole to report, so
+		// (with SACK negotiated) its segments carry SACK blocks - and must still fit
+		gap := uint32(1 + s.B%3000)
+		k := 1 + s.C%50
+		ackOff := int64(int32(p.RcvNxt - (p.StackISS + 1)))
+		if e := ackOff + int64(w.peerWin)<<uint(w.ws); e > w.edge {
+			w.edge = e
+		}
+		p.Send(codec.FlagACK|codec.FlagPSH, p.SndNxt+gap, p.RcvNxt, w.peerWin, nil, make([]byte, k))
+		w.Probes["peer_data_out_of_order"]++
 	case "ptb":
 		if w.lastData == nil {
 			return
@@ -384,7 +404,9 @@ func (w *winWorld) senderStep(s Step) {
 
 func (w *winWorld) senderNext() Step {
 	r := w.Rng
-	switch r.Pick(5, 10, 1, 3) {
+	switch r.Pick(5, 10, 1, 3, 1) {
+	case 4:
+		return Step{Op: "pooo", B: r.Intn(3000), C: r.Intn(50)}
 	case 0:
 		sizes := []int{1, 10, 500, 1460, 5000, 70000}
 		return Step{Op: "write", C: r.Range(1, sizes[r.Intn(len(sizes))])}
